@@ -311,6 +311,22 @@ def internal_taxa_cases(scope):
                     yield dict(scope=scope, schema=schema, pair=pair, kind="tree", route="string", doc=doc)
 
 
+def blank_leaf_cases(scope):
+    """one leaf of the tree carries neither a taxon nor a label (an anonymous tip), in every leaf position, with and without a length"""
+    for s in [((), ()), ((), (), ()), ((), ((), ())), (((), ()), ())]:
+        nl = n_leaves(s)
+        for pos in range(nl):
+            for with_len in (False, True):
+                labels = [None if i == pos else ["A", "b", "C3"][i if i < pos else i - 1] for i in range(nl)]
+                root = H.shape_to_node(s, labels, lengths=lambda i, leaf, r: (None if (r or not with_len) else 1.5))
+                used = T.labels_used({"trees": [{"root": root}]})
+                for rooted in (True, False):
+                    doc = {"ns": used, "trees": [{"rooted": rooted, "root": root, "weight": None}]}
+                    for schema in SCHEMAS:
+                        yield dict(scope=scope, schema=schema, pair="default", kind="tree", route="string", doc=doc,
+                                   blank="last" if pos == nl - 1 else ("first" if pos == 0 else "middle"))
+
+
 def list_cases(scope, maxlen):
     small = [(), ((), ()), ((), ((), ())), (((), ()), ((), ())), ((), (), ())]
     pats = len_patterns()
@@ -496,6 +512,11 @@ def t2(ctx):
                        "non-trivial = all", exhaustive=True)
     _run(ctx, sc, internal_taxa_cases(sc), lambda c: True)
 
+    # -- anonymous tips
+    sc = "roundtrip@blank-leaves"
+    ctx.scope(sc, rule="4 shapes x one leaf without taxon and label in every leaf position x {no lengths, lengths} x both rooting states x formats; "
+                       "non-trivial = all", exhaustive=True)
+    _run(ctx, sc, blank_leaf_cases(sc), lambda c: True)
     # -- tree lists
     mlen = 3
     sc = "roundtrip@lists<=%d" % mlen
